@@ -20,7 +20,8 @@ from ..core import Ctx, MachineryError
 from ..instrument import Recorder, UseInlinePool
 from .sift_check import DUMMY, INTERPS, STEPS, imf_opts_for, signal
 
-SCALES = [2.0 ** k for k in (-8, -3, -1, 1, 2, 5, 8)] + [-1.0, -2.0, -0.25, 3.0, -0.7, float(np.pi)]
+# (incl. units far from one - 2^-40, 1e-8, -3e-9, 1e7: no absolute tolerance may enter a decision)
+SCALES = [2.0 ** k for k in (-8, -3, -1, 1, 2, 5, 8, -40)] + [-1.0, -2.0, -0.25, 3.0, -0.7, float(np.pi), 1e-8, -3e-9, 1e7]
 
 
 def is_pow2(c):
@@ -154,9 +155,10 @@ def _job(args):
             mk = dict(mask_amp=amp, mask_amp_mode=str(rng.choice(['ratio_sig', 'ratio_imf'])), mask_freqs=float(rng.choice([.1, .2])), max_imfs=3,
                       nphases=int(rng.choice([1, 4])), imf_opts=o, envelope_opts=eo, extrema_opts=xo)
             runs = []
-            for arr in (x, c2 * x):
+            # (sift_thresh is documented as an ABSOLUTE magnitude below which the sift ends: it is expressed in the same unit)
+            for arr, st in ((x, 1e-8), (c2 * x, 1e-8 * c2)):
                 with UseInlinePool(emd), Recorder(emd, keep_arrays=True, keep_iterates=True) as R:
-                    outm = core.guarded(emd.sift.mask_sift, arr, _timeout=60, **mk)
+                    outm = core.guarded(emd.sift.mask_sift, arr, sift_thresh=st, _timeout=60, **mk)
                 runs.append((R.traces, R.meta, outm))
             (tA, mA, a), (tB, mB, b) = runs
             nfirst = mk['nphases']
